@@ -29,14 +29,30 @@
     (`identical_code_loses_an_entry`, witness `dupProg`); the presence theorems therefore name
     the function that owns the entry (a live function with the same code hash) and give the
     literal statement under the hypothesis that no other live function has that code hash.
-  What is missing for the full property: inline functions, let/assign, lambdas, constants,
-  macros, optimising builds and the classic compiler are outside `Core`; they are decided by the
+  * `…_core2_partial`, the same for the CORE2 language of Lang/Core2.lean (core + `defun-inline`
+    functions with destructuring parameters + `let` / `let*` anywhere, with shadowing),
+    NON-OPTIMISING build, every well-formed core2 program (`Core2.progWF`), every `H`: the table
+    `Core2.compileCore2Syms` returns next to the emitted program (`Core2.compileCore2`: rename →
+    inline expansion → let hoisting → code generation; byte-tied by `modeld core2syms` vs
+    `cvh coresyms`) satisfies truth (`symbol_names_right_code_core2_partial`: the key of an entry is
+    the hash of the FINAL code of the named source function — after renaming, expansion and hoisting —
+    and the extracted code run on `(ENV . args)` returns what the lexically scoped source-level call
+    `Core2.evalL` returns), hash-level truth, presence, and ABSENCE: inline functions
+    (`no_entry_for_inline_function_partial`), dead functions and compiler-generated helpers
+    (`only_source_functions_named_core2_partial`) are never named.  In the real compiler the helpers
+    `hoist_body_let_binding` generates for `let` / `let*` (`letbinding_$_N`) are INLINE helpers
+    (`should_inline_let(None) = true`), so they go through `add_inline` and get no entry: no value of
+    the table depends on the gensym counter.
+  What is missing for the full property: assign, lambdas, constants, macros, `&rest` calls,
+  optimising builds and the classic compiler are outside `Core2`; they are decided by the
   differential oracle of tools/props/c13.py only.
 -/
 import ChialispModel.Lang.Symbols
 import ChialispModel.Lang.CoreSymbols
 import ChialispModel.Proofs.SymbolsLemmas
 import ChialispModel.Proofs.CoreSymbolsLemmas
+import ChialispModel.Lang.Core2Symbols
+import ChialispModel.Proofs.Core2SymbolsLemmas
 
 namespace C13
 open Core
@@ -245,6 +261,258 @@ example : codeOf dupProg dupProg.fns[0] = codeOf dupProg dupProg.fns[1] ∧ (cod
 /-- both functions are live, only `G` (the later one) is named; `F` has no entry. -/
 example : (symbolsOf toyH dupProg).map (fun t => t.map (·.2)) =
     some [.name [71], .one, .pattern (.cons (.atom [66]) .nil), .pattern (.cons (.atom [88]) .nil)] := by
+  decide
+
+-- CORE2: + inline functions + let / let* ------------------------------------------------------------------
+
+/-- TRUTH (core2 language, non-optimising build).  Let `tab` be the symbol table reported next
+    to the emitted program `prog` of a core2 program (functions, `defun-inline` functions,
+    `let` / `let*` with shadowing).  If `tab` has an entry `<h> ↦ val` and `sub` is any tree with
+    tree hash `h` (in particular a subtree of `prog`), then under injectivity of the tree hash:
+    `val` is the name of a NON-INLINE, live function `f` written in the source, `sub` is exactly
+    `f`'s final code (`Core2.codeOf`: let names renamed, inline calls and lets expanded, compiled,
+    wrapped) and occurs in `prog`, `<h>_arguments` is `f`'s SOURCE parameter list, `<h>_left_env`
+    is `1`, and the program `compose_run_function` builds for `h` evaluates to `v` on `args`
+    whenever the lexically scoped source-level call of `f` on `args` (`Core2.evalL` over ALL
+    functions of the source, inline ones included; `args` destructurable by `f`'s parameters)
+    returns `v`. -/
+theorem symbol_names_right_code_core2_partial (ops : OpSem) (hops : OpsCore ops) (hfr : Core2.OpsFR ops)
+    (H : Bytes → Bytes) (hH : Function.Injective (Val.treeHash H))
+    (P : Core2.Prog) (hwf : Core2.progWF P = true) (prog : Val) (tab : SymTab)
+    (hc : Core2.compileCore2Syms H P = some (prog, tab))
+    (h : Bytes) (val : SymVal) (hg : symGet (.fn h) tab = some val)
+    (sub : Val) (hsub : Val.treeHash H sub = h) :
+    ∃ f ∈ P.fns, f.inline = false ∧ (Core2.liveSet P).contains f.name = true ∧
+      val = .name f.name ∧ Core2.codeOf P f = some sub ∧ Lang.Subtree sub prog ∧
+      symGet (.arguments h) tab = some (.pattern f.params) ∧
+      symGet (.leftEnv h) tab = some .one ∧
+      ∃ qmain qenv p, extractProgramAndEnv prog = some (qmain, qenv) ∧
+        Lang.pathToFunction H qenv h = some p ∧
+        composeRunFunction H prog h = some (rewriteInProgram p qenv) ∧
+        ∀ n args v, Core2.bindsOk f.params args = true →
+          Core2.evalL ops P.fns n f.params args f.body = .ok v →
+          Clvm.Evaluates ops (rewriteInProgram p qenv) args v :=
+  Core2.truth H P prog tab ops hops hfr hH hwf hc h val hg sub hsub
+
+/-- hash-level truth on core2, NO injectivity hypothesis: every `<h>` entry names a live,
+    non-inline source function whose final code has tree hash `h` and occurs in the emitted
+    program; the `_arguments` and `_left_env` entries of `h` are that function's. -/
+theorem symbol_entry_sound_core2_partial (H : Bytes → Bytes) (P : Core2.Prog) (hwf : Core2.progWF P = true)
+    (prog : Val) (tab : SymTab) (hc : Core2.compileCore2Syms H P = some (prog, tab))
+    (h : Bytes) (val : SymVal) (hg : symGet (.fn h) tab = some val) :
+    ∃ f ∈ P.fns, f.inline = false ∧ (Core2.liveSet P).contains f.name = true ∧
+      ∃ c, val = .name f.name ∧ Core2.codeOf P f = some c ∧ Val.treeHash H c = h ∧
+      symGet (.arguments h) tab = some (.pattern f.params) ∧
+      symGet (.leftEnv h) tab = some .one ∧ Lang.Subtree c prog :=
+  Core2.entry_sound H P prog tab hwf hc h val hg
+
+/-- PRESENCE (core2 language, non-optimising build): for every non-inline source function `f`
+    reachable from the main expression (liveness is computed on the source, through inline
+    functions and lets) its final code occurs in the emitted program — inside the quoted function
+    table that `extract_program_and_env` returns, at the path `f`'s name has in the balanced tree of
+    the emitted functions' names (`Core2.emitted`: inline functions and let helpers take no
+    slot) — `path_to_function` finds a subtree with its hash, and the entries `<h>`,
+    `<h>_arguments`, `<h>_left_env` of its hash exist and describe a live non-inline source
+    function `g` whose code has the same hash (the LAST such function: `add_defun` overwrites). -/
+theorem symbols_present_core2_partial (H : Bytes → Bytes) (P : Core2.Prog) (hwf : Core2.progWF P = true)
+    (prog : Val) (tab : SymTab) (hc : Core2.compileCore2Syms H P = some (prog, tab))
+    (f : Core2.FnDef) (hf : f ∈ P.fns) (hinl : f.inline = false)
+    (hlive : (Core2.liveSet P).contains f.name = true) :
+    ∃ code, Core2.codeOf P f = some code ∧ Lang.Subtree code prog ∧
+      (Lang.pathToFunction H prog (Val.treeHash H code)).isSome = true ∧
+      (∃ main env q, extractProgramAndEnv prog = some (qv main, qv env) ∧
+        Lang.nameLookup f.name (Lang.buildTree ((Core2.emitted P).map (·.name))
+          (((Core2.emitted P).map (·.name)).length + 1)) = some q ∧
+        Path.lookupNat q env = .ok code) ∧
+      ∃ g ∈ P.fns, g.inline = false ∧ (Core2.liveSet P).contains g.name = true ∧
+        ∃ cg, Core2.codeOf P g = some cg ∧ Val.treeHash H cg = Val.treeHash H code ∧
+        symGet (.fn (Val.treeHash H code)) tab = some (.name g.name) ∧
+        symGet (.arguments (Val.treeHash H code)) tab = some (.pattern g.params) ∧
+        symGet (.leftEnv (Val.treeHash H code)) tab = some .one :=
+  Core2.present H P prog tab hwf hc f hf hinl hlive
+
+/-- …and if no OTHER emitted function has final code with the same hash, the entries are `f`'s
+    own: its name and its source parameter list (the presence clause as the property states it). -/
+theorem symbols_present_unique_core2_partial (H : Bytes → Bytes) (P : Core2.Prog) (hwf : Core2.progWF P = true)
+    (prog : Val) (tab : SymTab) (hc : Core2.compileCore2Syms H P = some (prog, tab))
+    (f : Core2.FnDef) (hf : f ∈ P.fns) (hinl : f.inline = false)
+    (hlive : (Core2.liveSet P).contains f.name = true) (code : Val) (hcode : Core2.codeOf P f = some code)
+    (huniq : ∀ g ∈ P.fns, ∀ cg, Core2.codeOf P g = some cg → Val.treeHash H cg = Val.treeHash H code → g = f) :
+    Lang.Subtree code prog ∧
+    symGet (.fn (Val.treeHash H code)) tab = some (.name f.name) ∧
+    symGet (.arguments (Val.treeHash H code)) tab = some (.pattern f.params) ∧
+    symGet (.leftEnv (Val.treeHash H code)) tab = some .one := by
+  obtain ⟨code', h1, h2, _, _, g, hg, _, _, cg, h3, h4, h5, h6, h7⟩ :=
+    Core2.present H P prog tab hwf hc f hf hinl hlive
+  rw [hcode] at h1
+  simp only [Option.some.injEq] at h1
+  subst h1
+  have := huniq g hg cg h3 h4
+  subst this
+  exact ⟨h2, h5, h6, h7⟩
+
+/-- NO ENTRY FOR AN INLINE FUNCTION: a `defun-inline` function of the source is named by no entry
+    of the table (its body only exists substituted into its callers). -/
+theorem no_entry_for_inline_function_partial (H : Bytes → Bytes) (P : Core2.Prog) (hwf : Core2.progWF P = true)
+    (prog : Val) (tab : SymTab) (hc : Core2.compileCore2Syms H P = some (prog, tab))
+    (d : Core2.FnDef) (hd : d ∈ P.fns) (hinl : d.inline = true) (k : SymKey) :
+    symGet k tab ≠ some (.name d.name) :=
+  Core2.inline_absent H P prog tab hwf hc d hd hinl k
+
+/-- ONLY SOURCE FUNCTIONS ARE NAMED: every value of the table that is a function name is the
+    name of an emitted (non-inline, live) function written in the source — in particular no
+    compiler-generated let helper (`letbinding_$_N`) is named, and no value depends on the
+    gensym counter. -/
+theorem only_source_functions_named_core2_partial (H : Bytes → Bytes) (P : Core2.Prog)
+    (hwf : Core2.progWF P = true) (prog : Val) (tab : SymTab)
+    (hc : Core2.compileCore2Syms H P = some (prog, tab))
+    (k : SymKey) (n : Bytes) (hg : symGet k tab = some (.name n)) :
+    n ∈ (Core2.emitted P).map (·.name) :=
+  Core2.names_are_source_names H P prog tab hwf hc k n hg
+
+/-- no entry names a function that is not reachable from the main expression. -/
+theorem no_entry_for_dead_function_core2_partial (H : Bytes → Bytes) (P : Core2.Prog) (hwf : Core2.progWF P = true)
+    (prog : Val) (tab : SymTab) (hc : Core2.compileCore2Syms H P = some (prog, tab))
+    (d : Core2.FnDef) (hdead : (Core2.liveSet P).contains d.name = false) (k : SymKey) :
+    symGet k tab ≠ some (.name d.name) :=
+  Core2.dead_absent H P prog tab hwf hc d hdead k
+
+/-- `__chia__main_arguments` records the mod's parameter list. -/
+theorem main_arguments_recorded_core2_partial (H : Bytes → Bytes) (P : Core2.Prog) (hwf : Core2.progWF P = true)
+    (prog : Val) (tab : SymTab) (hc : Core2.compileCore2Syms H P = some (prog, tab)) :
+    symGet .mainArguments tab = some (.pattern P.params) :=
+  Core2.main_arguments H P prog tab hwf hc
+
+/-- the emitted program of `compileCore2Syms` is `compileCore2`'s (the byte-tied compiler model
+    of C01 Layer B2), so `compile_core2_correct_partial` speaks about the same program. -/
+theorem symbols_program_is_compiled_program_core2 (H : Bytes → Bytes) (P : Core2.Prog) (hwf : Core2.progWF P = true)
+    (prog : Val) (tab : SymTab) (hc : Core2.compileCore2Syms H P = some (prog, tab)) :
+    Core2.compileCore2 P = some prog :=
+  Core2.program_is_compiled H P prog tab hwf hc
+
+/-- defect C13-F1 on core2: two source functions with different names whose FINAL codes have the
+    same tree hash (e.g. a function and its `let`-desugared twin) are never both named. -/
+theorem identical_code_loses_an_entry_core2 (H : Bytes → Bytes) (P : Core2.Prog) (hwf : Core2.progWF P = true)
+    (prog : Val) (tab : SymTab) (hc : Core2.compileCore2Syms H P = some (prog, tab))
+    (f g : Core2.FnDef) (hf : f ∈ P.fns) (hg : g ∈ P.fns) (hne : f.name ≠ g.name)
+    (cf cg : Val) (hcf : Core2.codeOf P f = some cf) (hcg : Core2.codeOf P g = some cg)
+    (hsame : Val.treeHash H cf = Val.treeHash H cg) :
+    ¬ ((∃ k, symGet k tab = some (.name f.name)) ∧ (∃ k, symGet k tab = some (.name g.name))) :=
+  Core2.same_code_one_entry H P prog tab hwf hc f g hf hg hne cf cg hcf hcg hsame
+
+-- non-vacuity (core2) ------------------------------------------------------------------------------------
+
+/-- `(mod (X Y) (defun-inline F (A (B . C)) (let ((Z (+ A B))) (* Z C))) (defun G (N) (F N (c N 3)))
+         (defun K (A) (let ((A (+ A 1))) (* A A))) (defun-inline D (Q) (* Q 2)) (defun z (Q) (D Q))
+         (let ((V (G X))) (c (F V (c Y V)) (K Y))))`
+    — `F` inline with a destructured parameter and a let, `G` calls it, `K` has a shadowing let,
+    `D` (inline) and `z` are dead, the main expression has a let. -/
+def exProg2 : Core2.Prog :=
+  { params := .cons (.atom [88]) (.cons (.atom [89]) .nil),
+    fns := [
+      ⟨[70], .cons (.atom [65]) (.cons (.cons (.atom [66]) (.atom [67])) .nil),
+        .letE [[90]] (.cons (.op 16 (.cons (.var [65]) (.cons (.var [66]) .nil))) .nil)
+          (.op 18 (.cons (.var [90]) (.cons (.var [67]) .nil))), true⟩,
+      ⟨[71], .cons (.atom [78]) .nil,
+        .call [70] (.cons (.var [78]) (.cons (.op 4 (.cons (.var [78]) (.cons (.lit (.atom [3])) .nil))) .nil)), false⟩,
+      ⟨[75], .cons (.atom [65]) .nil,
+        .letE [[65]] (.cons (.op 16 (.cons (.var [65]) (.cons (.lit (.atom [1])) .nil))) .nil)
+          (.op 18 (.cons (.var [65]) (.cons (.var [65]) .nil))), false⟩,
+      ⟨[68], .cons (.atom [81]) .nil, .op 18 (.cons (.var [81]) (.cons (.lit (.atom [2])) .nil)), true⟩,
+      ⟨[122], .cons (.atom [81]) .nil, .call [68] (.cons (.var [81]) .nil), false⟩],
+    body := .letE [[86]] (.cons (.call [71] (.cons (.var [88]) .nil)) .nil)
+      (.op 4 (.cons (.call [70] (.cons (.var [86]) (.cons (.op 4 (.cons (.var [89]) (.cons (.var [86]) .nil))) .nil)))
+        (.cons (.call [75] (.cons (.var [89]) .nil)) .nil))) }
+
+example : Core2.progWF exProg2 = true := by decide
+/-- compilation succeeds and reports a table. -/
+example : (Core2.compileCore2Syms toyH exProg2).isSome = true := by decide
+/-- the emitted functions: `G` and `K` — not the inline `F`, not the dead `D`, `z`. -/
+example : (Core2.emitted exProg2).map (·.name) = [[71], [75]] := by decide
+/-- 2 emitted functions × 3 entries + `__chia__main_arguments`; nothing for the inline function,
+    nothing for the three lets' helpers, nothing for the dead functions; `_arguments` are the
+    SOURCE parameter lists. -/
+example : (Core2.symbolsOf toyH exProg2).map (fun t => t.map (·.2)) =
+    some [.name [71], .one, .pattern (.cons (.atom [78]) .nil),
+          .name [75], .one, .pattern (.cons (.atom [65]) .nil),
+          .pattern (.cons (.atom [88]) (.cons (.atom [89]) .nil))] := by
+  decide
+/-- the keys are the hashes of the final codes. -/
+example : (Core2.symbolsOf toyH exProg2).map (fun t => (t.map (·.1)).take 1) =
+    (Core2.codeOf exProg2 exProg2.fns[1]).map (fun c => [.fn (Val.treeHash toyH c)]) := by
+  decide
+/-- an inline function has no code of its own. -/
+example : Core2.codeOf exProg2 exProg2.fns[0] = none := by decide
+/-- `compose_run_function` succeeds on every function key of the example. -/
+example : ((Core2.compileCore2Syms toyH exProg2).map (fun pt =>
+    pt.2.all (fun kv => match kv.1 with
+      | .fn h => (composeRunFunction toyH pt.1 h).isSome
+      | _ => true))) = some true := by
+  decide
+/-- the run clause is not vacuous: the lexically scoped source-level call `(K 3)` of the function
+    with the shadowing let returns 16, `(G 2)` (through the inline `F` and its let) returns 12. -/
+example : Core2.bindsOk exProg2.fns[2].params (.pair (.atom [3]) Val.nil) = true ∧
+    Core2.evalL Ops.chiaOps exProg2.fns 16 exProg2.fns[2].params (.pair (.atom [3]) Val.nil)
+      exProg2.fns[2].body = .ok (.atom [16]) := by
+  decide
+example : Core2.evalL Ops.chiaOps exProg2.fns 16 exProg2.fns[1].params (.pair (.atom [2]) Val.nil)
+    exProg2.fns[1].body = .ok (.atom [12]) := by
+  decide
+/-- all hypotheses of `symbol_names_right_code_core2_partial` hold together for a concrete
+    instance (injective hash, the example program, the entry of `G`). -/
+example : ∃ prog tab h val sub, Function.Injective (Val.treeHash selfDelim) ∧ Core2.progWF exProg2 = true ∧
+    Core2.compileCore2Syms selfDelim exProg2 = some (prog, tab) ∧ symGet (.fn h) tab = some val ∧
+    Val.treeHash selfDelim sub = h := by
+  have hwf : Core2.progWF exProg2 = true := by decide
+  have hsome : (Core2.compileCore2 exProg2).isSome = true := by decide
+  cases hc : Core2.compileCore2Syms selfDelim exProg2 with
+  | none =>
+    exfalso
+    have h1 : Core2.compileCore2Syms selfDelim exProg2 ≠ none := by
+      unfold Core2.compileCore2Syms Core2.compileNSSyms
+      unfold Core2.compileCore2 Core2.compileNS at hsome
+      cases hx : Core2.expandProg (Core2.renameProg exProg2) with
+      | none => rw [hx] at hsome; simp at hsome
+      | some r =>
+        obtain ⟨FT, main⟩ := r
+        rw [hx] at hsome
+        simp only at hsome ⊢
+        cases hw : Core2.compileWith (Core2.keep FT (Core2.liveSet (Core2.renameProg exProg2)))
+            (Core2.renameProg exProg2).params main with
+        | none => rw [hw] at hsome; simp at hsome
+        | some code =>
+          have hw' := hw
+          unfold Core2.compileWith at hw'
+          cases he : Core2.compileFns ((Core2.keep FT (Core2.liveSet (Core2.renameProg exProg2))).map (·.name))
+              (Core2.keep FT (Core2.liveSet (Core2.renameProg exProg2))) with
+          | none => rw [he] at hw'; split at hw' <;> simp_all
+          | some es => simp
+    exact h1 hc
+  | some pt =>
+    obtain ⟨prog, tab⟩ := pt
+    obtain ⟨code, _, _, _, _, g, _, _, _, _, _, _, h5, _⟩ :=
+      symbols_present_core2_partial selfDelim exProg2 hwf prog tab hc exProg2.fns[1]
+        (List.Mem.tail _ (List.Mem.head _)) rfl (by decide)
+    exact ⟨prog, tab, _, _, code, treeHash_selfDelim_injective, hwf, rfl, h5, rfl⟩
+
+/-- witness of the presence defect on core2: a function and its `let`-desugared twin,
+    `(mod (X) (defun F (A) (let ((B (+ A 1))) B)) (defun G (A) (+ A 1)) (+ (F X) (G X)))`:
+    after let hoisting and expansion both bodies are `(+ A 1)`. -/
+def dupProg2 : Core2.Prog :=
+  { params := .cons (.atom [88]) .nil,
+    fns := [
+      ⟨[70], .cons (.atom [65]) .nil,
+        .letE [[66]] (.cons (.op 16 (.cons (.var [65]) (.cons (.lit (.atom [1])) .nil))) .nil) (.var [66]), false⟩,
+      ⟨[71], .cons (.atom [65]) .nil, .op 16 (.cons (.var [65]) (.cons (.lit (.atom [1])) .nil)), false⟩],
+    body := .op 16 (.cons (.call [70] (.cons (.var [88]) .nil)) (.cons (.call [71] (.cons (.var [88]) .nil)) .nil)) }
+
+example : Core2.progWF dupProg2 = true := by decide
+example : Core2.codeOf dupProg2 dupProg2.fns[0] = Core2.codeOf dupProg2 dupProg2.fns[1] ∧
+    (Core2.codeOf dupProg2 dupProg2.fns[0]).isSome = true := by
+  decide
+/-- both functions are emitted, only `G` (the later one) is named; `F` has no entry. -/
+example : (Core2.symbolsOf toyH dupProg2).map (fun t => t.map (·.2)) =
+    some [.name [71], .one, .pattern (.cons (.atom [65]) .nil), .pattern (.cons (.atom [88]) .nil)] := by
   decide
 
 end C13
